@@ -1,6 +1,6 @@
 use std::io;
 use std::iter::{self, FusedIterator};
-use std::net::{IpAddr, TcpStream, ToSocketAddrs};
+use std::net::{IpAddr, SocketAddr, TcpStream, ToSocketAddrs};
 use std::sync::mpsc::channel;
 use std::thread;
 use std::time::{Duration, Instant};
@@ -8,6 +8,16 @@ use std::time::{Duration, Instant};
 use url::Host;
 
 const RACE_DELAY: Duration = Duration::from_millis(200);
+
+/// Connects to a single address, waiting no longer than the connect timeout or the time left
+/// until the deadline, whichever is shorter.
+fn connect_addr(addr: &SocketAddr, timeout: Duration, deadline: Option<Instant>) -> io::Result<TcpStream> {
+    match deadline.map(|deadline| deadline.checked_duration_since(Instant::now())) {
+        None => TcpStream::connect_timeout(addr, timeout),
+        Some(Some(timeout1)) => TcpStream::connect_timeout(addr, timeout.min(timeout1)),
+        Some(None) => Err(io::ErrorKind::TimedOut.into()),
+    }
+}
 
 /// This function implements a basic form of the happy eyeballs RFC to quickly connect
 /// to a domain which is available in both IPv4 and IPv6. Connection attempts are raced
@@ -17,13 +27,13 @@ pub fn connect(host: &Host<&str>, port: u16, timeout: Duration, deadline: Option
         #[cfg(feature = "verif-hooks")]
         Host::Domain(domain) if crate::verif::has_resolution(domain) => crate::verif::resolve(domain, port),
         Host::Domain(domain) => (domain, port).to_socket_addrs()?.collect(),
-        Host::Ipv4(ip) => return TcpStream::connect_timeout(&(IpAddr::V4(ip), port).into(), timeout),
-        Host::Ipv6(ip) => return TcpStream::connect_timeout(&(IpAddr::V6(ip), port).into(), timeout),
+        Host::Ipv4(ip) => return connect_addr(&(IpAddr::V4(ip), port).into(), timeout, deadline),
+        Host::Ipv6(ip) => return connect_addr(&(IpAddr::V6(ip), port).into(), timeout, deadline),
     };
 
     if let [addr] = &addrs[..] {
         debug!("DNS returned only one address, using fast path");
-        return TcpStream::connect_timeout(addr, timeout);
+        return connect_addr(addr, timeout, deadline);
     }
 
     let ipv4 = addrs.iter().filter(|a| a.is_ipv4());
@@ -72,11 +82,7 @@ pub fn connect(host: &Host<&str>, port: u16, timeout: Duration, deadline: Option
             crate::verif::sched_point("he.attempt.begin", crate::verif::addr_detail(&addr));
             debug!("trying to connect to {}", addr);
 
-            let res = match deadline.map(|deadline| deadline.checked_duration_since(Instant::now())) {
-                None => TcpStream::connect_timeout(&addr, timeout),
-                Some(Some(timeout1)) => TcpStream::connect_timeout(&addr, timeout.min(timeout1)),
-                Some(None) => Err(io::ErrorKind::TimedOut.into()),
-            };
+            let res = connect_addr(&addr, timeout, deadline);
 
             #[cfg(feature = "verif-hooks")]
             crate::verif::sched_point("he.attempt.result", res.is_ok() as i64);
